@@ -434,3 +434,115 @@ Proof.
   pose proof (gen_run (kops (kinit cap prog) sched) (cinit cap) (gen_init cap Hc)) as H.
   destruct (crun (cinit cap) _) as [sf rs]. exact (proj1 H).
 Qed.
+
+(* ---------------------------------------------------------------- packaged statements *)
+(* a failed write or flush leaves a writer that refuses everything from then on *)
+Lemma failure_kills s o : NonOk s -> CInv s ->
+  let '(s', r, wk) := cstep s o in
+  (match o, r with OWrite _, RWrite None => True | OFlush, RIo false => True | _, _ => False end) -> c_w s' <> WRaw.
+Proof.
+  intros HN HI. destruct o as [d|d| | | |w|]; cbn [cstep]; try (destruct (cstep _ _) as [[? ?] ?]; tauto).
+  - pose proof (bw_write_nonok s d HN HI) as Hb. destruct (bw_write s d) as [[s1 r] wk].
+    destruct Hb as (_ & _ & _ & _ & _ & _ & Hnr & Hr). destruct r as [n|]; [tauto|]. intros _.
+    destruct (c_w s) eqn:Ew.
+    + destruct (Hr eq_refl) as [H1 H2].
+      destruct (N.le_gt_cases (c_cap s) (lenN (c_buf s) + lenN d)) as [Hc1|Hc1];
+        [destruct (H1 Hc1) as [_ ->]; discriminate|destruct (H2 Hc1) as (Hx & _); discriminate Hx].
+    + destruct (Hnr ltac:(discriminate)) as [-> _]. rewrite Ew. discriminate.
+    + destruct (Hnr ltac:(discriminate)) as [-> _]. rewrite Ew. discriminate.
+  - destruct (write_all_loop _ _ _ _ _) as [[? ?] ?]. tauto.
+  - destruct (c_w s) eqn:Hw.
+    + destruct (flush_helper_nonok s false HN) as (ok & E & _). rewrite E. destruct ok; [tauto|].
+      rewrite drop_writer_inner_nonok by (apply nonok_set_w; exact HN). cbn [c_w set_w]. intros _; discriminate.
+    + intros _. rewrite Hw. discriminate.
+    + intros _. rewrite Hw. discriminate.
+  - destruct (c_w s); [destruct (match c_st s with SOk _ _ _ => _ | _ => _ end) as [? ?]; destruct (drop_writer_inner _) as [? ?]|..]; tauto.
+  - destruct (c_w s); [destruct (drop_writer_inner _) as [? ?]|..]; tauto.
+  - destruct (negb (c_reader s)); [tauto|]. destruct (c_st s) as [[|? ?] ? [|]| |]; tauto.
+  - destruct (negb (c_reader s)); tauto.
+Qed.
+
+Lemma abort_keeps_reader s : Live s -> c_reader (fst (fst (cstep s OAbort))) = c_reader s.
+Proof.
+  intros (Hw & q & rb & Hs). cbn [cstep]. rewrite Hw, Hs. unfold drop_writer_inner, flush_helper, set_w.
+  cbn [c_buf c_st]. destruct (c_buf s); reflexivity.
+Qed.
+
+(* C11, abort at any point of any fault-free history, followed by anything *)
+Theorem abort_history s ops : Good s -> Live s ->
+  let '(s1, _, _) := cstep s OAbort in
+  let '(sf, rs) := crun s1 ops in
+  Forall2 (fun o p => refused o (fst p) /\ delivered_of (fst p) = [] /\ snd p = []) ops rs /\
+  match first_poll ops rs with Some r => r = RPoll (Some (Some None)) | None => True end.
+Proof.
+  intros HG HL. pose proof (abort_effect s HL) as Ha. pose proof (fault_step s OAbort HG (fun x => x)) as Hf.
+  pose proof (abort_keeps_reader s HL) as Hk.
+  destruct (cstep s OAbort) as [[s1 r1] wk1]. destruct Ha as (Hs1 & Hw1 & _). destruct Hf as (HI1 & _). cbn [fst] in Hk.
+  assert (Hr1 : c_reader s1 = true) by (destruct HG as (_ & Hrd & _); congruence).
+  assert (Hnw : c_w s1 <> WRaw) by (rewrite Hw1; discriminate).
+  pose proof (after_abort_all_refused ops s1 (or_introl Hs1) HI1 Hnw) as H1.
+  pose proof (abort_then_error ops s1 Hs1 Hr1 HI1) as H2.
+  destruct (crun s1 ops) as [sf rs]. split; [exact (proj1 H1)|exact H2].
+Qed.
+
+(* C11, body drop at any point of any history, followed by anything: the queue is and stays released,
+   nothing is delivered or woken, the writer's buffer stays below the chunk size *)
+Theorem disconnect_history s ops : Gen s -> c_reader s = true ->
+  let '(s1, _, _) := cstep s ODropReader in
+  let '(sf, rs) := crun s1 ops in
+  c_st sf = SFused /\ pending sf = [] /\ lenN (c_buf sf) < c_cap s /\
+  Forall (fun p => delivered_of (fst p) = [] /\ snd p = []) rs.
+Proof.
+  intros (HI & _) Hr. cbn [cstep]. rewrite Hr. cbn [negb].
+  match goal with |- context [crun ?s1 ops] => set (s1' := s1) end.
+  assert (HI1 : CInv s1').
+  { destruct HI as (Hcap & Hq & Hb & Hnb). unfold CInv, s1'. cbn [c_st c_cap c_w c_buf]. auto. }
+  pose proof (after_disconnect ops s1' eq_refl HI1) as H.
+  destruct (crun s1' ops) as [sf rs]. destruct H as (H1 & H2 & H3 & H4 & H5 & _).
+  split; [exact H1|]. split; [exact H2|]. split; [|exact H5].
+  destruct H3 as (Hcap & _ & Hb & Hnb). unfold s1' in H4. cbn [c_cap] in H4. rewrite <- H4.
+  destruct (c_w sf) eqn:Ew; [apply Hb; reflexivity|rewrite Hnb by discriminate; rewrite lenN_nil; exact Hcap..].
+Qed.
+
+(* C08 / C10: a clean end -- the first terminal event, reported while the shared state is still Ok --
+   comes only after everything accepted has been delivered, in every history *)
+Theorem clean_end_complete cap ops w : 0 < cap ->
+  let '(s, rs) := crun (cinit cap) ops in
+  IsOk s -> snd (fst (cstep s (OPoll w))) = RPoll (Some None) -> acc_total ops rs = del_total rs.
+Proof.
+  intros Hc. pose proof (acct_run ops (cinit cap) [] [] (gen_init cap Hc)) as H.
+  assert (HA : Acct (cinit cap) [] []).
+  { split; [intros _; reflexivity|]. intros _. exists []. reflexivity. }
+  specialize (H HA). pose proof (gen_run ops (cinit cap) (gen_init cap Hc)) as HG.
+  destruct (crun (cinit cap) ops) as [s rs]. cbn [app] in H. destruct HG as [(HI & HG) _].
+  intros Hok Hend. destruct H as [H1 _]. rewrite (H1 Hok). specialize (HG Hok).
+  destruct HG as (_ & Hrd & Hcls). cbn [cstep] in Hend. rewrite Hrd in Hend. cbn [negb] in Hend.
+  destruct Hok as (q & rb & wd & Hs). rewrite Hs in Hend.
+  destruct q as [|c q]; [|cbn in Hend; discriminate]. destruct wd; [|cbn in Hend; discriminate].
+  unfold pending. rewrite Hs. cbn [concat app].
+  destruct Hcls as [(_ & q0 & rb0 & E)|(Hw & _)]; [congruence|].
+  destruct HI as (_ & _ & _ & Hnb). rewrite Hnb by (rewrite Hw; discriminate). now rewrite app_nil_r.
+Qed.
+
+(* C10: the same accounting under every producer/consumer interleaving *)
+Corollary schedule_prefix cap prog sched k : 0 < cap -> krun (kinit cap prog) sched = Some k ->
+  let '(sf, rs) := crun (cinit cap) (kops (kinit cap prog) sched) in
+  k_s k = sf /\ exists rest, acc_total (kops (kinit cap prog) sched) rs = del_total rs ++ rest.
+Proof.
+  intros Hc Hr. pose proof (schedule_is_history sched _ _ Hr) as E. cbn [kinit k_s] in E.
+  pose proof (delivered_prefix_of_accepted cap (kops (kinit cap prog) sched) Hc) as P.
+  destruct (crun (cinit cap) (kops (kinit cap prog) sched)) as [sf rs]. cbn [fst] in E. split; [exact E|exact P].
+Qed.
+
+Theorem failure_is_final : forall s o, NonOk s -> CInv s ->
+  let '(s', r, wk) := cstep s o in
+  (match o, r with OWrite _, RWrite None => True | OFlush, RIo false => True | _, _ => False end) ->
+  c_w s' <> WRaw /\
+  forall ops, let '(sf, rs) := crun s' ops in Forall2 (fun o p => refused o (fst p)) ops rs.
+Proof.
+  intros s o HN HI. pose proof (failure_kills s o HN HI) as Hk. pose proof (nonok_step s o HN HI) as Hs.
+  destruct (cstep s o) as [[s' r] wk]. intros Hf. specialize (Hk Hf). split; [exact Hk|].
+  destruct Hs as (HN' & HI' & _). intros ops.
+  pose proof (after_abort_all_refused ops s' HN' HI' Hk) as H. destruct (crun s' ops) as [sf rs].
+  destruct H as (H & _). clear - H. induction H as [|o0 p0 l l' (Hr & _) _ IH]; constructor; assumption.
+Qed.
